@@ -366,3 +366,77 @@ def _nonneg(eng, st, args, kwargs):
     from . import theory as TH
     _, syms = TH.groups()
     return BoolV(syms['nonneg'](_as_mat(eng, st, args[0])))
+
+
+# ---- WorkAssignment seen from its caller: results are pure functions of (assignment, arguments)
+def _wa_fn(name, nargs, res):
+    @spec(name)
+    def fn(eng, st, args, kwargs, name=name, nargs=nargs, res=res):
+        from .values import StrS, IntV, KRef as _KR
+        sorts = [z3.IntSort()] + [StrS] * nargs
+        rs = {'int': z3.IntSort(), 'bool': z3.BoolSort(), 'group': z3.IntSort()}[res]
+        f = eng.uf_cache.setdefault(name, z3.Function(name, *sorts, rs))
+        t = f(args[0].term, *[a.term for a in args[1:1 + nargs]])
+        if res == 'int':
+            return IntV(t)
+        if res == 'bool':
+            return BoolV(t)
+        return V(_KR('ProcessGroup'), t)
+    return fn
+
+
+_wa_fn('wa_inv_worker', 2, 'int')
+_wa_fn('wa_is_grad_worker', 1, 'bool')
+_wa_fn('wa_src_grad_worker', 1, 'int')
+_wa_fn('wa_factor_group', 2, 'group')
+_wa_fn('wa_worker_group', 1, 'group')
+_wa_fn('wa_receiver_group', 1, 'group')
+_wa_fn('wa_broadcast_gradients', 0, 'bool')
+_wa_fn('wa_broadcast_inverses', 0, 'bool')
+
+
+@spec('frame_same')
+def _frame_same(eng, st, args, kwargs):
+    """frame_same('Class.field', [excluded objects]): every object that existed at function entry, other
+    than the excluded ones, has the same value of that field as at function entry."""
+    key = args[0].meta
+    excl = []
+    if len(args) > 1:
+        from .values import tuple_items, KTuple, KList, ListOps
+        x = args[1]
+        if isinstance(x.kind, KTuple):
+            excl = [i.term for i in tuple_items(x)]
+        else:
+            cs = ListOps(x.kind)._concrete(x.term)
+            if cs is None:
+                raise SpecError('frame_same: exclusion list must have concrete length')
+            excl = cs
+    cur = st.heap.get(key)
+    old = eng._spec_old.heap.get(key, eng.old_heap.get(key))
+    if cur is None or old is None or z3.eq(cur, old):
+        return BoolV(True)
+    r = z3.Int(fresh_name_('fr'))
+    cond = z3.And(r > 0, r < eng._spec_old.nxt, *[r != e for e in excl])
+    from .values import forall as _forall
+    return BoolV(_forall([r], z3.Implies(cond, z3.Select(cur, r) == z3.Select(old, r)), patterns=[z3.Select(cur, r)]))
+
+
+def fresh_name_(b):
+    from .values import fresh_name
+    return fresh_name(b)
+
+
+@spec('sqrt_of')
+def _sqrt_of(eng, st, args, kwargs):
+    from .builtins import sqrt_term
+    from .values import RealV
+    _, _, r = eng.num_parts(args[0], st)
+    return RealV(sqrt_term(eng, st, r))
+
+
+@spec('clip_sum')
+def _clip_sum(eng, st, args, kwargs):
+    from .values import RealV
+    p, i = args
+    f = eng.uf_cache.setdefault('clip_sum', z3.Function('clip_sum', z3.IntSort(), z3.IntSort(), z3.RealSort()))
+    return RealV(f(p.term, eng.as_int(i, st)))
